@@ -274,11 +274,6 @@ func checkC12Conc(s *C12Conc) Result {
 			lists[g] = s.Lists[0]
 		}
 	}
-	// single-threaded references
-	refs := make([][]concResult, n)
-	for g := range lists {
-		refs[g] = runList(lists[g], args[g], nil, nil, nil)
-	}
 	var phase, overlapped int32
 	got := make([][]concResult, n)
 	var wg sync.WaitGroup
@@ -297,6 +292,13 @@ func checkC12Conc(s *C12Conc) Result {
 	}
 	close(start)
 	wg.Wait()
+	// single-threaded references, taken afterwards: whatever the library
+	// initialises on first use (per-type caches...) is first used by the
+	// concurrent calls
+	refs := make([][]concResult, n)
+	for g := range lists {
+		refs[g] = runList(lists[g], args[g], nil, nil, nil)
+	}
 	res.NonTrivial = n >= 2 && overlapped == 1
 	res.Classes = append(res.Classes, fmt.Sprintf("goroutines:%d", n))
 	if s.Shared {
